@@ -41,7 +41,14 @@ class Snapshots:
             self.last = fp
             d = os.path.join(self.store, 'snap%03d' % len(self.snaps))
             if os.path.exists(self.root):
-                shutil.copytree(self.root, d, symlinks=True)
+                # an armed RLIMIT_FSIZE (write-fault scenarios) must not hit our own copy
+                import resource
+                lim = resource.getrlimit(resource.RLIMIT_FSIZE)
+                resource.setrlimit(resource.RLIMIT_FSIZE, (lim[1], lim[1]))
+                try:
+                    shutil.copytree(self.root, d, symlinks=True)
+                finally:
+                    resource.setrlimit(resource.RLIMIT_FSIZE, lim)
             else:
                 os.makedirs(d + '.gone')
                 d = d + '.gone'
